@@ -59,44 +59,69 @@ def dispatch_table(eng):
 
 
 def ctor_positions(eng, ci: ClassInfo):
-    """attr -> symbolic position term ('pos0', 'pos1', or expression over them) established by the constructor,
-    plus the literal used to cut the keyword off."""
+    """Symbolic evaluation of the constructor's straight-line assignments.
+
+    Returns (env, order, cut, init): env maps attribute names ('_mu') and local names to their
+    value term over pos0, pos1 *including* numeric wrappers (float(pos0)); order lists the attributes
+    in the order of the text positions they are filled from; cut is the keyword literal removed
+    before the parameters."""
     init = ci.method("__init__")
     if init is None:
         raise AnalysisError(f"{ci.name}.__init__ not found")
     env = {}
-    order = []
     cut = None
+
+    def key(t):
+        if _self_attr(t):
+            return t.attr
+        if isinstance(t, ast.Name):
+            return "local:" + t.id
+        return None
+
     for st in own_nodes(init.node):
         if not isinstance(st, ast.Assign) or len(st.targets) != 1:
             continue
         tgt, val = st.targets[0], st.value
-        # tuple unpack from make_tuple(text[len(kw):])
         if isinstance(tgt, ast.Tuple) and isinstance(val, ast.Call) and callee_name(val) in ("make_tuple", "literal_eval"):
             cut = _cut_literal(val.args[0]) or cut
             for i, t in enumerate(tgt.elts):
-                if _self_attr(t):
-                    env[t.attr] = ast.Name(id=f"pos{i}", ctx=ast.Load())
-                    order.append(t.attr)
+                k = key(t)
+                if k:
+                    env[k] = ast.Name(id=f"pos{i}", ctx=ast.Load())
             continue
-        if _self_attr(tgt):
-            inner = _strip_num(val)
-            if isinstance(inner, ast.Call) and callee_name(inner) in ("make_tuple", "literal_eval"):
-                cut = _cut_literal(inner.args[0]) or cut
-                env[tgt.attr] = ast.Name(id="pos0", ctx=ast.Load())
-                order.append(tgt.attr)
-                continue
-            if isinstance(inner, ast.Subscript) and "_raw_text" in src(inner):
-                cut = _cut_literal(inner) or cut
-                env[tgt.attr] = ast.Name(id="pos0", ctx=ast.Load())
-                order.append(tgt.attr)
-                continue
-            # identity re-assignment: self._x = float(self._x)
-            if _self_attr(inner) and inner.attr == tgt.attr:
-                continue
-            # derived attribute
-            if tgt.attr not in ("_distribution", "_raw_text"):
-                env[tgt.attr] = subst(inner, env)
+        if isinstance(tgt, ast.Tuple) and isinstance(val, ast.Tuple) and len(tgt.elts) == len(val.elts):
+            new = {}
+            for t, v in zip(tgt.elts, val.elts):
+                kk = key(t)
+                if kk:
+                    new[kk] = subst(v, env)
+            env.update(new)
+            continue
+        k = key(tgt)
+        if k is None or k in ("_distribution", "_raw_text"):
+            continue
+        has_text = any(callee_name(c) in ("make_tuple", "literal_eval") for c in ast.walk(val) if isinstance(c, ast.Call)) or any(
+            isinstance(x, ast.Subscript) and "_raw_text" in src(x) for x in ast.walk(val))
+        if has_text:
+            cut = _cut_literal(val) or cut
+
+            def fn(n):
+                if isinstance(n, ast.Call) and callee_name(n) in ("make_tuple", "literal_eval"):
+                    return ast.Name(id="pos0", ctx=ast.Load())
+                if isinstance(n, ast.Subscript) and "_raw_text" in src(n):
+                    return ast.Name(id="pos0", ctx=ast.Load())
+                return None
+
+            env[k] = rebuild(val, fn)
+            continue
+        env[k] = subst(val, env)
+    order = []
+    for k, v in env.items():
+        if not k.startswith("local:"):
+            core = _strip_num(v)
+            if isinstance(core, ast.Name) and core.id.startswith("pos"):
+                order.append((int(core.id[3:]), k))
+    order = [k for _, k in sorted(order)]
     return env, order, cut, init
 
 
@@ -119,11 +144,13 @@ def _strip_num(e):
 
 
 def subst(e, env):
+    """Replace known attributes / locals by their value terms (wrappers kept)."""
+
     def fn(n):
         if _self_attr(n) and n.attr in env:
             return env[n.attr]
-        if isinstance(n, ast.Call) and callee_name(n) in ("float", "int") and len(n.args) == 1:
-            return subst(n.args[0], env)
+        if isinstance(n, ast.Name) and ("local:" + n.id) in env:
+            return env["local:" + n.id]
         return None
 
     return rebuild(e, fn)
@@ -199,13 +226,13 @@ def param_order(eng, res, rule="R-DIST-PARAM-ORDER"):
     return n
 
 
-EXPECTED_ROLES = {
-    "Gauss": {"loc": "pos0", "scale": "pos1"},
-    "Uniform": {"loc": "pos0", "scale": "pos1 - pos0"},
-    "Poisson": {"mu": "pos0"},
-    "SchulzZimm": {"z": "pos1 / (pos0 - pos1)", "Mn": "pos1"},
-    "LogNormal": {"M": "pos0", "D": "pos1"},
-    "FlorySchulz": {"a": "pos0"},
+EXPECTED_ROLES = {  # over h0, h1 = the values printed at text positions 0, 1
+    "Gauss": {"loc": "h0", "scale": "h1"},
+    "Uniform": {"loc": "h0", "scale": "h1 - h0"},
+    "Poisson": {"mu": "h0"},
+    "SchulzZimm": {"z": "h1 / (h0 - h1)", "Mn": "h1"},
+    "LogNormal": {"M": "h0", "D": "h1"},
+    "FlorySchulz": {"a": "h0"},
 }
 
 
@@ -250,8 +277,14 @@ def param_role(eng, res, rule="R-PARAM-ROLE"):
         if want is None:
             res.ob(rule, ci.qualname, f"{ci.name}:roles", "family has a documented parameter-role table", f"{ci.module.relpath}:{ci.node.lineno}", False, "unknown family")
             continue
+        kw, holes, gs = printer_holes(eng, ci)
+        hterms = {f"h{i}": env.get(h) for i, h in enumerate(holes)}
+        if any(v is None for v in hterms.values()):
+            res.ob(rule, ci.qualname, f"{ci.name}:roles", "printed parameters are constructor-established attributes", f"{ci.module.relpath}:{ci.node.lineno}", False,
+                   f"printed holes {holes} not all assigned in the constructor")
+            continue
         g = {k: _canon(v) for k, v in got.items() if not k.startswith("__")}
-        w = {k: _canon(v) for k, v in want.items()}
+        w = {k: norm(rebuild(ast.parse(v, mode="eval").body, lambda n: hterms.get(n.id) if isinstance(n, ast.Name) else None)) for k, v in want.items()}
         res.ob(rule, ci.qualname, f"{ci.name}:roles", f"text positions reach the sampler in their documented roles {want}",
                f"{ci.module.relpath}:{site.lineno if site is not None else ci.node.lineno}", g == w, f"sampler receives {got}")
     # which scipy family
